@@ -223,24 +223,22 @@ def run(chk, repo):
              (isinstance(w[2], ast.Assign) and isinstance(w[2].value, ast.List) and not w[2].value.elts) for w in sel_w) and len(sel_w) >= 3
     chk.ob('C05.b', 'Sec sites are collected only when truncate_sec is on', jm.where, ok,
            f"selenocysteines written outside `if truncate_sec`: {[norm_stmt(w[2]) for w in sel_w]}", key=jm.qual + '::sec-flag', fn=jm.qual)
-    # copy-before-mutate in translational_modification
-    for c in [c for c in G.find_calls(mt.node) if call_name(c) in ('truncate_left', 'truncate_right')]:
+    # copy-before-mutate in translational_modification (normal form: helpers inlined)
+    from sa import sem as _sem2
+    nmt = _sem2.nf(repo, mt)
+    ch2 = _sem2.block_chains(nmt)
+    seen = {}
+    for st in [x for x in ast.walk(nmt) if isinstance(x, ast.Expr) and isinstance(x.value, ast.Call) and call_name(x.value) in ('truncate_left', 'truncate_right')]:
+        c = st.value
         tgt = unparse(c.func.value)
-        st = repo.enclosing_stmt(c)
-        blk = None
-        for anc in repo.ancestors(st):
-            for fld in ('body', 'orelse'):
-                b = getattr(anc, fld, None)
-                if isinstance(b, list) and st in b:
-                    blk = b
-            if blk:
-                break
-        i = blk.index(st)
-        prev = blk[i - 1] if i > 0 else None
-        ok = isinstance(prev, ast.Assign) and unparse(prev.targets[0]) == tgt and unparse(prev.value) in (f"{tgt}.copy()",)
-        chk.ob('C05.b', f"'{norm_stmt(st)}' acts on a fresh copy", repo.loc(mt, c), ok,
-               f"'{norm_stmt(st)}' mutates a node shared with the other series of the same start node (no '{tgt} = {tgt}.copy()' right before): "
-               "enabling the alt-translation flag removes the un-truncated peptide of longer series", key=mt.qual + f"::copy-before::{tgt}.{call_name(c)}::{sum(1 for _ in [0])}", fn=mt.qual)
+        prev = _sem2.nearest_store(nmt, st, tgt, ch2)
+        okc = prev is not None and isinstance(prev, ast.Call) and call_name(prev) == 'copy'
+        # nothing between the copy and the mutation re-binds the receiver to a shared object: nearest store is the copy
+        n_ = seen.get((tgt, call_name(c)), 0)
+        seen[(tgt, call_name(c))] = n_ + 1
+        chk.ob('C05.b', f"'{norm_stmt(st)}' acts on a fresh copy", mt.where, okc,
+               f"'{norm_stmt(st)}' mutates a node shared with the other series of the same start node (the receiver is not bound to a fresh .copy() before): "
+               "enabling the alt-translation flag removes the un-truncated peptide of longer series", key=mt.qual + f"::copy-before::{call_name(c)}::{n_}", fn=mt.qual)
 
     # ------------------------------------------------------------------ c
     chk.rule('C05.c', 'R-POLARITY: restrictive switches only add skips', 4)
@@ -329,15 +327,18 @@ def run(chk, repo):
     tl = repo.func('svgraph.VariantPeptideDict:MiscleavedNodeSeries.is_too_long')
     chk.uses(tm, jm, tl)
     # k = number of residues removed from the N-terminus of the emitted Met-cleaved form
+    from sa import sem as _sem
+    ntm = _sem.nf(repo, tm)
+    _ch = _sem.block_chains(ntm)
     ks = set()
-    for n in walk_no_nested(tm.node):
-        if isinstance(n, ast.Assign) and isinstance(n.value, ast.Subscript) and isinstance(n.value.slice, ast.Slice) \
-                and n.value.slice.upper is None and isinstance(n.value.slice.lower, ast.Constant) and unparse(n.targets[0]) == 'cur_seq':
-            ks.add(n.value.slice.lower.value)
+    for y, _fx in _sem.yield_tuples(ntm):
+        E = _sem.expand_names(ntm, y, y.value.value.elts[0], chains=_ch)
+        if isinstance(E, ast.Subscript) and isinstance(E.slice, ast.Slice) and E.slice.upper is None and isinstance(E.slice.lower, ast.Constant):
+            ks.add(E.slice.lower.value)
     if len(ks) != 1:
-        raise AnalysisError(f"anchor={tmq}: Met-cleaved form `cur_seq = <seq>[k:]` not found / inconsistent ({sorted(ks)})")
+        raise AnalysisError(f"anchor={tmq}: Met-cleaved form `<seq>[k:]` not found among the yields / inconsistent ({sorted(ks)})")
     k = ks.pop()
-    tr = G.find_calls(tm.node, 'truncate_left')
+    tr = G.find_calls(ntm, 'truncate_left')
     chk.ob('C05.h', f"translational_modification: the node chain of the cleaved form is truncated by the same {k} residue(s)", tm.where,
            bool(tr) and all(len(c.args) == 1 and isinstance(c.args[0], ast.Constant) and c.args[0].value == k for c in tr),
            f"sequence is cut by {k} but the leading node by {[unparse(c.args[0]) for c in tr if c.args]}", key=tmq + '::cleaved-k', fn=tm.qual)
